@@ -434,6 +434,7 @@ M('C05', 'M5.repeated_notification', 'insert_conflict', 'one step of add_pending
 M('C14', 'M4.flag_conflict', 'insert_conflict', 'one step of flag_misbehaving_tower from every pre-state (receipt for the locator stored or not, tower already flagged or not): storing the proof never unwraps a primary-key conflict (a misbehaving reply to a repeated notification, or two misbehaving replies in flight, must not crash the client)', recorders=['flag_misbehaving_tower'])
 M('C11', 'M2.purge_race', 'purge_race', 'no interleaving of an API handler (add_appointment / get_appointment / get_subscription_info) with the block that purges its user lets the handler unwrap a failed look-up of the user it authenticated in an earlier critical section (handler abort)')
 M('C13', 'M5.data_not_dropped', 'retry_data_kept', 'RetryManager::manage_retry: a received (tower, data) message is either for an abandoned tower, handed to add_pending_appointments, or met by an idle retrier (which keeps nothing in memory and reloads all pending appointments from the database when woken): data for a stopped or running retrier is never dropped')
+M('C11', 'M3.purge_vs_store', 'purge_vs_store', 'no interleaving orders the purge of a user (memory, then rows) between the charge and the store of add_appointment such that the store result is unwrapped (foreign-key failure with the dbm and cache locks held); known finding F22')
 M('C08', 'M1.single_height_read', 'single_height_read', 'Watcher::add_appointment reads the tower height once per accepted request: the start block in the receipt and the one stored with the appointment are the same number whatever block events interleave')
 M('C06', 'M2.uuid_derivation', 'uuid_derivation', 'UUID::new hashes locator || full serialised user key (PublicKey::serialize): distinct users never share a uuid for the same locator')
 K('C11', 'K1.handle_reorged_panic_free', 'teos', _r + 'c04_p3_handle_reorged', 'handle_reorged_txs does not panic for any node reply to the dispute / penalty re-submission (incl. already-in-chain)')
